@@ -536,6 +536,12 @@ fn run_chunk(kind: Kind, tier: Tier, fi: usize, f: &dyn Family, lo: usize, hi: u
                     continue;
                 }
                 rep.merge(local);
+                if !msgs.is_empty() && rep.violations.len() >= MAX_VIOL_PER_BATCH {
+                    // enough replayable counterexamples from this chunk: count the rest
+                    rep.inc("violations");
+                    rep.hist("violations_by_property", kind.id());
+                    continue;
+                }
                 if !msgs.is_empty() {
                     // does it fail on a fresh manager too? (then the program alone is the counterexample)
                     let alone = {
